@@ -23,6 +23,9 @@ def _hdkey_ctor(ip, args, kwargs):
     for k, v in kwargs.items():
         r.attrs[k] = v
     key = kwargs.get('key')
+    if key is None and args:
+        key = args[0]          # HDKey(import_key): raw 32-byte secret or 33-byte public key
+        r.attrs['key'] = key
     r.attrs.setdefault('compressed', True)
     r.attrs['_hash160'] = None
     r.attrs.setdefault('key_type', 'bip32')
